@@ -8,7 +8,7 @@
   log, which build files were rewritten (sentinel mtimes), and the canonical dump of the build directory.
 * edit generators.
 """
-import os, re, json, shutil, hashlib, subprocess, copy, time
+import os, sys, re, json, shutil, hashlib, subprocess, copy, time
 import vlib
 
 SENTINEL = 1000000000          # mtime given to every build file before a deployment; rewritten <=> differs
@@ -178,6 +178,10 @@ class Workspace:
                  "sort: %s" % f.get("sort", "by_weight")]
             if f.get("vocab"):
                 o += ["use_preset_vocabulary: true"]
+            if f.get("max_phrase_length"):
+                o += ["max_phrase_length: %d" % f["max_phrase_length"]]
+            if f.get("min_phrase_weight"):
+                o += ["min_phrase_weight: %d" % f["min_phrase_weight"]]
             if f.get("imports"):
                 o += ["import_tables:"] + ["  - %s" % i for i in f["imports"]]
             if f.get("columns"):
@@ -441,7 +445,10 @@ def base_workspace(rng, big=False, t0=T0):
     w.put("shared/da.dict.yaml", {"kind": "dict", "name": "da", "vocab": True, "imports": ["dx"], "rows": rows(nrows, sy_a, 2) + [[HAN[i], s, 50 + i] for i, s in enumerate(sy_a)]})
     w.put("shared/pk1.dict.yaml", {"kind": "dict", "name": "pk1", "rows": rows(3, sy_a, 2)})
     w.put("shared/pk2.dict.yaml", {"kind": "dict", "name": "pk2", "rows": rows(3, sy_a, 3)})
+    # `db` uses the preset vocabulary too, with filters that let none of its phrases in: what one dictionary asks of the
+    # vocabulary must not stick to the next dictionary compiled in the same deployment
     w.put("shared/db.dict.yaml", {"kind": "dict", "name": "db", "sort": "original", "columns": ["text", "code"],
+                                  "vocab": True, "max_phrase_length": 1, "min_phrase_weight": 100000,
                                   "rows": [[HAN[20 + i], "".join(rng.choice("abcd") for _ in range(rng.randint(1, 3)))] for i in range(nrows)]
                                   + [["go to", "ab"]]})
     w.put("shared/common.yaml", {"kind": "config", "rules": ["derive/^zh/z/", "derive/^ch/c/"]})
@@ -787,14 +794,20 @@ class Runner:
                     out.append(n)
         return out
 
-    def deploy(self, root, now, extra_env=None, timeout=300):
-        """one full deployment in its own process; returns dict(rc, decisions, tasks, detect, hooks, raw, rewritten)"""
+    def deploy(self, root, now, extra_env=None, timeout=300, file_size_limit=None):
+        """one full deployment in its own process; returns dict(rc, decisions, tasks, detect, hooks, raw, rewritten).
+        `file_size_limit`: the process may not grow any file beyond that many bytes (RLIMIT_FSIZE, SIGXFSZ ignored: the
+        write fails with EFBIG) — a deployment on a full disk"""
         self.set_sentinels(root)
         env = dict(self.env)
         env["VERIF_NOW"] = str(now)
         env.update(extra_env or {})
         self.deploys += 1
-        rc, out = self.sh([self.exe, "deploy", os.path.join(root, "shared"), os.path.join(root, "user")], env, timeout)
+        cmd = [self.exe, "deploy", os.path.join(root, "shared"), os.path.join(root, "user")]
+        if file_size_limit is not None:
+            cmd = [sys.executable, "-c", "import resource, signal, os, sys; signal.signal(signal.SIGXFSZ, signal.SIG_IGN); "
+                   "resource.setrlimit(resource.RLIMIT_FSIZE, (%d, %d)); os.execv(sys.argv[1], sys.argv[1:])" % (file_size_limit, file_size_limit)] + cmd
+        rc, out = self.sh(cmd, env, timeout)
         r = {"rc": rc, "decisions": [], "tasks": {}, "detect": None, "hooks": None, "raw": out, "cps": [], "killed": None}
         for line in out.splitlines():
             p = line.split(" ")
